@@ -8,6 +8,7 @@ import RedisGoModel.Driver.Wal
 import RedisGoModel.Driver.Codec
 import RedisGoModel.Driver.Rendezvous
 import RedisGoModel.Driver.Ready
+import RedisGoModel.Driver.PsTrace
 /-! Correspondence driver: reads one observed operation per line on stdin, recomputes it with the model, prints
     `MISMATCH <lineno> <detail>` for every disagreement and a final `SUMMARY` line.  Each engine recognises its own line tags. -/
 open Driver
@@ -40,7 +41,7 @@ def judge (st : St) (fs : List String) : St × Option (Except String Bool) :=
   let (rz', v) := rendezvousLine st.rz fs
   let st := { st with rz := rz' }
   if v.isSome then (st, v) else
-  (st, (((readyLine fs).orElse fun _ => codecLine fs).orElse fun _ => globLine fs).orElse fun _ => parserLine fs)
+  (st, ((((readyLine fs).orElse fun _ => codecLine fs).orElse fun _ => globLine fs).orElse fun _ => psTraceLine fs).orElse fun _ => parserLine fs)
 
 partial def loop (h : IO.FS.Stream) (st : St) : IO St := do
   let line ← h.getLine
